@@ -11,7 +11,10 @@ _GEN = ("generated MagicRobot subclasses (0-5 components split over 1-3 robot-cl
         "on_disable, will_reset_to markers own and inherited, feedback getters with adversarial names / explicit keys / "
         "all return hints, 0-3 autonomous modes, use_teleop_in_autonomous on/off, four loop periods) driven through the "
         "real startCompetition() thread over random driver-station histories (3-9 mode segments, dwell 1-25, disabled "
-        "with any flag combination, endCompetition in the last mode); ")
+        "with any flag combination, endCompetition in the last mode); also: StateMachine components, two components of "
+        "one class or of a derived class, falsy and equal-comparing components, hooks given as staticmethod / instance "
+        "attribute, robots that leave mode hooks to MagicRobot's defaults, falsy mode objects, the 'Auto Selector' string, "
+        "constructors assigning marked attributes, the FMS bit changing while the robot runs, five kinds of exception; ")
 RULE = {
     "C05": _GEN + "callbacks may advance the clock (loop-body durations up to 3.5 periods). Non-trivial = >=2 components, >=3 "
            "distinct modes visited and >=1 direct enabled->enabled switch; distinct = hash of (robot definition, history, plan)",
